@@ -11,7 +11,7 @@ def main(tier, replay=None):
     common = ["signals=0", "verdicts=KD", "reorder=1"]
     fams = [
         dict(scn="c02", name="two-injectors-daemon-cleaner", opts=["family=interleave", "msgs=l1+r1", "inject=conc"] + common, bounds="2,0,0,%d" % (0 if q else 1), total=2 if q else 3, deadline=900),
-        dict(scn="c02", name="three-injectors", opts=["family=interleave", "msgs=l1+r1+l1b", "inject=conc"] + common, bounds="%d,0,0,0" % (1 if q else 2), total=2, deadline=900),
+        dict(scn="c02", name="three-injectors", opts=["family=interleave", "msgs=l1+r1+l1b", "inject=conc"] + common, bounds="%d,0,0,0" % (1 if q else 2), total=2, deadline=900 if q else 3600, qcap=0 if q else 6000000),
         dict(scn="c02", name="injector-vs-bounce-injection", opts=["family=interleave", "msgs=l1+r1b", "inject=event"] + common, bounds="1,0,0,2", total=3, deadline=900),
         dict(scn="c02", name="crash-any-process", opts=["family=interleave", "msgs=l1+r1", "inject=conc"] + common, bounds="%d,0,1,%d" % ((0, 1) if q else (1, 1)), total=2 if q else 3, deadline=1200),
         dict(scn="c02", name="failing-injections", opts=["family=failing", "msgs=l1"] + common, bounds="1,0,1,0", total=2),
